@@ -22,10 +22,9 @@ ASSUMPTIONS = ["the function is parsed from its unparsed text", "types are restr
 CORE_ALLOWED = ("kwargs_param", "multiline_summary", "float_default", "negative_int", "zero_int", "bool_false",
                 "prose_trailing_stop", "no_params", "str_with_space", "default_words", "prose_punct", "undocumented_param",
                 "default_without_prose", "str_with_dot", "str_with_quote", "multiline_prose", "foreign_tokens", "returns",
-                "returns_only", "nodefault_after_default")
+                "returns_only", "nodefault_after_default", "int_literal", "single_literal", "required_bool", "none_default", "returns_default")
 FRONTIER_KNOBS = irprops.frontier_knobs((
-    "untyped_param", "bare_param", "empty_str", "none_default", "required_bool", "returns_default",
-    "int_literal", "single_literal",
+    "untyped_param", "bare_param", "empty_str",
 ))
 FLOORS = {"has_default": 0.3}
 KIND = "argparse"
@@ -44,7 +43,7 @@ def mod():
 def strategy(mode, knob=None):
     return st.builds(lambda c, o: {"ir": c["ir"], "opts": o},
                      irprops.ir_case_strategy(mod(), mode, knob, st.just({}), argparse_only=True,
-                                              base_exclude=("int_literal", "none_default", "required_bool", "single_literal")), kinds.opts_strategy(KIND))
+                                              base_exclude=()), kinds.opts_strategy(KIND))
 
 
 def valid(case):
